@@ -18,6 +18,7 @@ import (
 	"sort"
 	"strconv"
 	"strings"
+	"time"
 
 	"github.com/goreleaser/nfpm/v2"
 	_ "github.com/goreleaser/nfpm/v2/apk"
@@ -44,6 +45,9 @@ type PkgCase struct {
 	// packaged from the parsed configuration as it is (Parse applies the defaults; no second WithDefaults by the caller).
 	EnvEdit func(yaml string) string
 	Env     map[string]string
+	// Rescript: after the case has been built, the script files are rewritten in place (same paths, other bytes) and the same
+	// configuration is built again in this process - the second packages carry the NEW bytes
+	Rescript bool
 }
 
 // ---------------------------------------------------------------- building
@@ -775,7 +779,11 @@ func emitFormat(f string, b []byte, scratch string, id int) ([]M, error) {
 // ---------------------------------------------------------------- one case
 
 func runPkgCase(tr *Trace, pc *PkgCase, scratch string) {
-	Materialise(pc.Root, pc.Nodes)
+	if keepTree {
+		keepTree = false
+	} else {
+		Materialise(pc.Root, pc.Nodes)
+	}
 	if pc.Cfg.Changelog != nil {
 		must(os.WriteFile(filepath.Join(pc.Root, "changelog.yaml"), []byte(pc.Cfg.ChangelogYAML()), 0o644))
 	}
@@ -831,8 +839,51 @@ func runPkgCase(tr *Trace, pc *PkgCase, scratch string) {
 	evs = append(evs, M{"ev": "endcase"})
 	tr.Emit(pc.ID, evs)
 	tr.Index(pc.ID, M{"yaml": strings.ReplaceAll(yaml, pc.Root, "$ROOT"), "profile": pc.Profile})
+	if pc.Rescript {
+		c2 := *pc.Cfg
+		c2.ScriptCid = map[string]string{}
+		for k, v := range pc.Cfg.ScriptCid {
+			c2.ScriptCid[k] = v
+		}
+		nodes2 := append([]Node(nil), pc.Nodes...)
+		for i := range nodes2 {
+			if nodes2[i].Kind == "file" && strings.HasPrefix(nodes2[i].P, "scripts/") {
+				b := append(append([]byte{}, nodes2[i].data...), []byte("\n# rewritten for the second build\n")...)
+				nodes2[i].data, nodes2[i].Size, nodes2[i].Cid = b, len(b), cidOf(b)
+				must(os.WriteFile(filepath.Join(pc.Root, nodes2[i].P), b, 0o755))
+				for slot, pth := range c2.Scripts {
+					if pth == nodes2[i].P {
+						c2.ScriptCid[slot] = cidOf(b)
+					}
+				}
+				if o := c2.Ov; o != nil {
+					for _, ov := range o {
+						for slot, pth := range ov.Scripts {
+							if pth == nodes2[i].P {
+								ov.ScriptCid[slot] = cidOf(b)
+							}
+						}
+					}
+				}
+				mt := time.Unix(int64(nodes2[i].Mt), 0)
+				os.Chtimes(filepath.Join(pc.Root, nodes2[i].P), mt, mt)
+			}
+		}
+		second := &PkgCase{ID: pc.ID + 500000, Profile: pc.Profile + "-second-build", Cfg: &c2, Nodes: nodes2, Root: pc.Root, Formats: pc.Formats}
+		runPkgCaseNoMaterialise(tr, second, scratch)
+		return
+	}
 	os.RemoveAll(pc.Root)
 }
+
+// runPkgCaseNoMaterialise builds and decodes a case whose source tree is already on disk (the second build of a Rescript case).
+func runPkgCaseNoMaterialise(tr *Trace, pc *PkgCase, scratch string) {
+	keepTree = true
+	runPkgCase(tr, pc, scratch)
+}
+
+// keepTree: set by the (sequentially run) second build of a Rescript case so that runPkgCase does not re-create the tree.
+var keepTree bool
 
 // ---------------------------------------------------------------- generators
 
@@ -1161,7 +1212,7 @@ func famPkg(tr *Trace, scratch string, seed int64, tier string, workers int, pro
 	}
 	var par, seq []*PkgCase
 	for _, pc := range cases {
-		if pc.Cfg.UseSDE {
+		if pc.Cfg.UseSDE || pc.Rescript {
 			seq = append(seq, pc)
 		} else {
 			par = append(par, pc)
